@@ -8,19 +8,39 @@
 #include <cstring>
 #include <string>
 #include <unistd.h>
+#include <sys/time.h>
 namespace vh {
 static std::string out;
+static volatile unsigned long emitted = 0, emitted_at_last_tick = (unsigned long)-1;   // for the hang watchdog below
 inline void flush() { if (!out.empty()) { size_t o = 0; while (o < out.size()) { ssize_t k = ::write(1, out.data() + o, out.size() - o); if (k <= 0) break; o += k; } out.clear(); } }
-inline void emit(const std::string& s) { out += s; out += '\n'; if (out.size() > (1u << 20)) flush(); }
+inline void emit(const std::string& s) { ++emitted; out += s; out += '\n'; if (out.size() > (1u << 20)) flush(); }
 inline void on_crash(int sig) {
   flush();
   const char* m = sig == SIGFPE ? "CRASH SIGFPE\n" : sig == SIGSEGV ? "CRASH SIGSEGV\n" : sig == SIGABRT ? "CRASH SIGABRT\n" : "CRASH\n";
   ssize_t k = ::write(1, m, strlen(m)); (void)k;
   _exit(70);
 }
+// hang watchdog, in CPU time (a loaded machine must not look like a hang): every WATCHDOG_CPU_S seconds of CPU burnt
+// by this process the number of answers emitted so far is compared with the previous tick; no progress = the
+// implementation loops on the current input line: the buffered answers are written out, followed by a CRASH line.
+#ifndef WATCHDOG_CPU_S
+#define WATCHDOG_CPU_S 40
+#endif
+inline void on_tick(int) {
+  if (emitted == emitted_at_last_tick) {
+    flush();
+    const char* m = "CRASH HANG (no answer within the CPU-time watchdog)\n";
+    ssize_t k = ::write(1, m, strlen(m)); (void)k;
+    _exit(70);
+  }
+  emitted_at_last_tick = emitted;
+}
 inline void install() {
   out.reserve(1 << 21);
   signal(SIGFPE, on_crash); signal(SIGSEGV, on_crash); signal(SIGABRT, on_crash); signal(SIGBUS, on_crash); signal(SIGILL, on_crash);
+  signal(SIGVTALRM, on_tick);
+  struct itimerval it = {{WATCHDOG_CPU_S, 0}, {WATCHDOG_CPU_S, 0}};
+  setitimer(ITIMER_VIRTUAL, &it, nullptr);
 }
 }  // namespace vh
 #endif
